@@ -189,8 +189,14 @@ type caseReport struct {
 
 func (cr *caseReport) label(l string) { cr.labels = append(cr.labels, l) }
 
+// extraDump is merged into every violation dump (block mode puts the whole block there).
+var extraDump map[string]any
+
 func dump(c *evmgen.Case, o *evmgen.Outcome, extra map[string]any) map[string]any {
 	m := map[string]any{"case": c.Dump()}
+	for k, v := range extraDump {
+		m[k] = v
+	}
 	if o != nil {
 		if o.Tracer != nil {
 			m["trace"] = o.Tracer.Dump()
